@@ -306,7 +306,9 @@ def run_obligation(res, kind, reader, spec, layout, findings):
         m = vm or ex.model()
         cdocs = {k: (d.model_str(m) if isinstance(d, SymStr) else d) for k, d in docs.items()}
         with shims.real_code():
-            ctag, cobs = run_with_alarm(lambda: observe(kind, reader, cdocs, None, concrete=True), 20.0)
+            ctag, cobs = run_with_alarm(lambda: observe(kind, reader, cdocs, None, concrete=True), 3.0)
+            if ctag == "HANG" and tag != "HANG":      # the symbolic run terminated: give the concrete one a generous second chance before calling it a disagreement (loaded machine)
+                ctag, cobs = run_with_alarm(lambda: observe(kind, reader, cdocs, None, concrete=True), 60.0)
         sym = ["OK", _plain_obs(obs, m)] if tag == "OK" else ([tag, type(obs).__name__] if tag == "EXC" else [tag])
         con = ["OK", _plain_obs(cobs, None)] if ctag == "OK" else ([ctag, type(cobs).__name__] if ctag == "EXC" else [ctag])
         if sym != con:
